@@ -52,6 +52,9 @@ def _case(draw, tier):
         "clone": clone, "mut": clone is True or clone == ["cfg"],
         "mc": draw(st.sampled_from([None, 1, 2, 3])), "sched": draw(st.lists(st.integers(0, 7), max_size=60)), "adversarial": draw(st.booleans()),
         "rename": draw(st.sampled_from([None, "swap_inputs", "swap_outputs", "both"])), "deep": prob(draw, 0.25),
+        # shape of the mutated broadcast value (an immutable container may still hold a mutable), renaming the cloned input,
+        # and whether map_over is configured before or after the renames
+        "cfg_shape": draw(st.sampled_from(["list", "list", "tuple_list", "dict"])), "rename_cfg": draw(st.booleans()), "map_after_renames": prob(draw, 0.3),
     }
 
 
@@ -68,12 +71,19 @@ def inner_spec(case):
         {"k": "func", "name": "od", "params": ["key"], "defaults": {}, "outs": ["o"]},
     ]
     if case["mut"]:
-        nodes.append({"k": "func", "name": "mut", "params": ["cfg", "key"], "defaults": {}, "outs": ["m"], "expr": "tuple(cfg)"})
+        expr = {"list": "tuple(cfg)", "tuple_list": "tuple(cfg[0])", "dict": "tuple(cfg['k'])"}[case.get("cfg_shape", "list")]
+        nodes.append({"k": "func", "name": "mut", "params": ["cfg", "key"], "defaults": {}, "outs": ["m"], "expr": expr})
     return {"nodes": nodes, "name": "inner"}
 
 
-def _hooks(ctx):
-    ctx.hooks["mut"] = lambda a: a[0].append(a[1])
+def _cfg0(case):
+    shape = case.get("cfg_shape", "list")
+    return {"list": [("c0",)], "tuple_list": ([("c0",)], "tag"), "dict": {"k": [("c0",)]}}[shape]
+
+
+def _hooks(ctx, case=None):
+    shape = (case or {}).get("cfg_shape", "list")
+    ctx.hooks["mut"] = {"list": lambda a: a[0].append(a[1]), "tuple_list": lambda a: a[0][0].append(a[1]), "dict": lambda a: a[0]["k"].append(a[1])}[shape]
 
 
 def _norm(res):
@@ -90,7 +100,7 @@ def check_case(case, ev):
     ps, order, mode, lists, bc = case["ps"], list(case["order"]), case["mode"], case["lists"], case["bc"]
     labels = {f"mode:{mode}", f"nparams:{len(ps)}", f"clone:{'list' if isinstance(case['clone'], list) else case['clone']}"}
     gspec = inner_spec(case)
-    cfg0 = [("c0",)]
+    cfg0 = _cfg0(case)
     values = {p: list(lists[p]) for p in sorted(ps)}  # dict order is NOT the map_over order
     values["bc"] = bc
     if case["mut"]:
@@ -106,7 +116,7 @@ def check_case(case, ev):
         singles = []
         for c in combos:
             cs = Ctx(compact=True)
-            _hooks(cs)
+            _hooks(cs, case)
             gs = make_graph(cs, gspec, "sync")
             item = dict(c)
             if case["mut"]:
@@ -122,7 +132,7 @@ def check_case(case, ev):
 
     def fresh(flavour):
         c = Ctx(compact=True)
-        _hooks(c)
+        _hooks(c, case)
         g = make_graph(c, gspec, flavour)
         v = dict(values)
         if case["mut"]:
@@ -197,7 +207,7 @@ def check_case(case, ev):
     def node_call(tag, runner_kind, eh):
         flavour = "async" if runner_kind == "sched" else "sync"
         c = Ctx(compact=True)
-        _hooks(c)
+        _hooks(c, case)
         m = {"params": order, "mode": mode, "error_handling": eh, "before_renames": True}
         if clone is not False:
             m["clone"] = clone
@@ -213,6 +223,14 @@ def check_case(case, ev):
         if case["rename"] in ("swap_outputs", "both"):
             renames.append({"kind": "outputs", "map": {"e": "o", "o": "e"}})
             outs.update({"e": "o", "o": "e"})
+        if case["mut"] and case.get("rename_cfg"):
+            renames.append({"kind": "inputs", "map": {"cfg": "conf"}})  # the cloned broadcast input itself is renamed
+            inmap["cfg"] = "conf"
+        if case.get("map_after_renames") and renames:
+            # map_over configured on the already renamed node: it is addressed by the current external names
+            m = {**m, "params": [inmap.get(p_, p_) for p_ in order], "before_renames": False}
+            if isinstance(m.get("clone"), list):
+                m["clone"] = [inmap.get(p_, p_) for p_ in m["clone"]]
         wrapper = {"k": "graph", "name": "inner", "graph": gspec, "map": m, "renames": renames}
         ospec = {"nodes": [wrapper]}
         if case["deep"]:
@@ -252,8 +270,8 @@ def check_case(case, ev):
             if got != exp:
                 raise Violation("c10.node_lists", f"[{tag}] output {ext!r} (inner {name!r}) = {J(got)}, expected one entry per combination {J(exp)}; order={order} lists={J(lists)}",
                                 what="length" if got is None or len(got) != len(exp) else "content")
-        if case["mut"] and v.get("cfg") != cfg0:
-            raise Violation("c10.clone_leak", f"[{tag}] caller's broadcast list was modified although clone={case['clone']}: {J(v.get('cfg'))}")
+        if case["mut"] and v.get(inmap.get("cfg", "cfg")) != cfg0:
+            raise Violation("c10.clone_leak", f"[{tag}] caller's broadcast list was modified although clone={case['clone']}: {J(v.get(inmap.get('cfg', 'cfg')))}")
 
     for runner_kind in ("sync", "async", "sched"):
         for eh in ("continue", "raise"):
